@@ -1,16 +1,15 @@
 import CoclsModel.Proto
 import CoclsModel.LimitedQueue
+import Drivers.SchedCommon
 /-! Driver for C10: runs the `limited_queue` model on the harness input (same grammar as harness/h_queue.cpp).
 
 Kind `lq <limit>` (harness `run_case`): sequential; every out-of-lock resolution is performed right after the lock
 region that decided it.
 
-Kind `slq <limit>` (harness `run_slqcase`): every operation of the harness runs on its own thread and parks after a
-lock region that moved a promise out of `_awaiters` / `_blocked`; the resolution is performed when the input says
-`deliver k` (= `Op.deliver k` of the model), so other lock regions run in between.  Every line carries the number of
-lock regions the operation entered: in the model every operation is exactly one lock region (`r=1`) and a resolution
-none (`r=0`); an implementation that splits a lock region prints something else.  `destroy` / `end` first perform all
-outstanding resolutions. -/
+Kind `slq <limit>` (harness `run_sched`): scheduled interleavings, see `Drivers/SchedCommon.lean`; this file supplies
+the model side (`schedModel`): one lock region = one step of the `LimitedQueue.lean` model, `deliver` of a paused call =
+`Op.deliver`.  The harness numbers pushes and pops in the order in which their lines are read, the model in the order
+of their lock regions; `popMap` / `pushMap` translate. -/
 open Cocls Cocls.Proto Cocls.LQ
 
 def outStr : Out → String
@@ -65,88 +64,57 @@ def doOp (s : State) (op : Op) : State × String :=
 
 /-! ### scheduled mode (`slq`) -/
 
-/-- the call that is parked with the i-th in-flight resolution: what it will return, and its own future's completion -/
-structure Origin where
-  label : String              -- `push#3` | `pop#1` | `upush` | `upop`
-  status : String             -- `ok` | `v:5` | `1`
-  own : Option Ev
-  deriving Inhabited
+structure SSt where
+  st : State
+  popMap : List (Nat × Nat) := []      -- model pop id ↦ harness pop id
+  pushMap : List (Nat × Nat) := []
 
-structure SState where
-  s : State
-  origins : List Origin := []   -- parallel to `s.inflight`
+def lookup (m : List (Nat × Nat)) (mid : Nat) : Nat := (m.find? (·.1 == mid)).map (·.2) |>.getD mid
 
-/-- one lock region, no resolution performed -/
-def sOp (d : SState) (op : Op) : SState × String :=
-  let (s1, r) := step d.s op
-  let grew := s1.inflight.length > d.s.inflight.length
-  let (head, origin) : String × Option Origin := match r with
-    | Res.push id ready =>
-        if grew then (s!"push#{id} paused", some ⟨s!"push#{id}", "ok", some (Ev.push id Out.ok)⟩)
-        else (s!"push#{id} " ++ (if ready then "ok" else "pending"), none)
-    | Res.pop id (some o) =>
-        if grew then (s!"pop#{id} paused", some ⟨s!"pop#{id}", outStr o, some (Ev.pop id o)⟩)
-        else (s!"pop#{id} {outStr o}", none)
-    | Res.pop id none => (s!"pop#{id} pending", none)
-    | Res.flag b =>
-        let name := match op with | Op.upop _ => "upop" | Op.upush _ => "upush" | _ => "empty"
-        if grew then (name ++ " paused", some ⟨name, "1", none⟩) else (name ++ " " ++ boolStr b, none)
-    | Res.num n => (s!"size {n}", none)
-    | Res.unit => ("destroy", none)
-    | Res.bad => ("bad-op", none)
-  let origins := match origin with
-    | some o => d.origins ++ [o]
-    | none => d.origins
-  ({ s := s1, origins := origins }, if head == "bad-op" then head else head ++ " r=1")
+def sevOf (s : SSt) : Ev → Sched.SEv
+  | Ev.pop id o => (0, lookup s.popMap id, s!"pop#{lookup s.popMap id}={outStr o}")
+  | Ev.push id o => (1, lookup s.pushMap id, s!"push#{lookup s.pushMap id}={outStr o}")
 
-/-- `deliver k`: the k-th parked call performs its resolution and returns -/
-def sDeliver (d : SState) (k : Nat) : SState × String :=
-  match d.s.inflight[k]?, d.origins[k]? with
-  | some e, some o =>
-      let s1 := (step d.s (Op.deliver k)).1
-      ({ s := s1, origins := d.origins.eraseIdx k }, withEvents s!"deliver r=0 ret={o.label}:{o.status}" [evStr e])
-  | _, _ => (d, "deliver none")
+def schedOp (ws : List String) : Option Op :=
+  match parseOp ws with
+  | some Op.destroy => none
+  | o => o
 
-/-- `destroy` / `end`: every parked call finishes (in the order in which they parked), then the queue dies -/
-def sDestroy (d : SState) (head : String) : String :=
-  let flushed := d.s.inflight ++ d.origins.filterMap (·.own)
-  let s0 := flush d.s (d.s.inflight.length + 1)
-  let n0 := s0.completed.length
-  let s1 := (step s0 Op.destroy).1
-  withEvents head ((sortBy evKey (flushed ++ s1.completed.drop n0)).map evStr)
-
-partial def skipToEnd (lines : Array String) (i : Nat) : Nat :=
-  if h : i < lines.size then
-    if words lines[i] == ["end"] then i + 1 else skipToEnd lines (i + 1)
-  else i
-
-partial def sLoop (lines : Array String) (i : Nat) (d : SState) : IO Nat := do
-  if h : i < lines.size then
-    let ws := words lines[i]
-    match ws with
-    | [] => sLoop lines (i+1) d
-    | ["end"] =>
-        IO.println (sDestroy d "end")
-        return i + 1
-    | ["destroy"] =>
-        IO.println (sDestroy d "destroy")
-        IO.println "end"
-        return skipToEnd lines (i+1)
-    | ["deliver", k] =>
-        match k.toNat? with
-        | some k =>
-            let (d', out) := sDeliver d k
-            IO.println out
-            sLoop lines (i+1) d'
-        | none => IO.println "bad-op"; sLoop lines (i+1) d
-    | _ =>
-        match parseOp ws with
-        | some op =>
-            let (d', out) := sOp d op
-            IO.println out
-            sLoop lines (i+1) d'
-        | none => IO.println "bad-op"; sLoop lines (i+1) d
-  else return i
+def schedModel : Sched.Model SSt where
+  issue ws ctr :=
+    match schedOp ws with
+    | none => none
+    | some Op.pop => some (s!"pop#{ctr.1}", ctr.1, (ctr.1 + 1, ctr.2))
+    | some (Op.push _) => some (s!"push#{ctr.2}", ctr.2, (ctr.1, ctr.2 + 1))
+    | some _ => some (ws.headD "", 0, ctr)
+  apply s ws hid :=
+    match schedOp ws with
+    | none => { st := s, status := "bad", paused := false, own := none }
+    | some op =>
+      let (s1, r) := step s.st op
+      let paused := s1.inflight.length > s.st.inflight.length
+      match r with
+      | Res.push id ready =>
+          let s' : SSt := { s with st := s1, pushMap := (id, hid) :: s.pushMap }
+          if ready then { st := s', status := "ok", paused := paused, own := some (1, hid, s!"push#{hid}=ok") }
+          else { st := s', status := "pending", paused := paused, own := none }
+      | Res.pop id o =>
+          let s' : SSt := { s with st := s1, popMap := (id, hid) :: s.popMap }
+          match o with
+          | some o => { st := s', status := outStr o, paused := paused, own := some (0, hid, s!"pop#{hid}={outStr o}") }
+          | none => { st := s', status := "pending", paused := paused, own := none }
+      | Res.flag b => { st := { s with st := s1 }, status := boolStr b, paused := paused, own := none }
+      | Res.num n => { st := { s with st := s1 }, status := toString n, paused := paused, own := none }
+      | _ => { st := { s with st := s1 }, status := "bad", paused := paused, own := none }
+  deliver s k :=
+    match s.st.inflight[k]? with
+    | none => (s, [])
+    | some e => ({ s with st := (step s.st (Op.deliver k)).1 }, [sevOf s e])
+  destroy s :=
+    let n0 := s.st.completed.length
+    let s1 := (step s.st Op.destroy).1
+    (s1.completed.drop n0).map (sevOf s)
+  pre _ _ := true
 
 partial def loop (lines : Array String) (i : Nat) (st : Option State) : IO Unit := do
   if h : i < lines.size then
@@ -157,7 +125,7 @@ partial def loop (lines : Array String) (i : Nat) (st : Option State) : IO Unit 
         loop lines (i+1) (some (init (lim.toNat?.getD 1)))
     | ("case" :: id :: "slq" :: lim :: _), _ =>
         IO.println s!"case {id}"
-        let j ← sLoop lines (i+1) { s := init (lim.toNat?.getD 1) }
+        let j ← Sched.caseLoop schedModel lines (i+1) { st := { st := init (lim.toNat?.getD 1) } }
         loop lines j none
     | ["end"], some s =>
         let (_, out) := if s.alive then doOp s Op.destroy else (s, "destroy")
